@@ -82,6 +82,7 @@ impl ChannelRegion for US915Region {
 impl FixedChannelRegion for US915Region {
     // SF8 / 500 kHz
     const JOIN_DR_500KHZ: DR = DR::_4;
+    const MAX_UPLINK_DR: DR = DR::_4;
 
     fn uplink_channels() -> &'static [u32; 72] {
         &UPLINK_CHANNEL_MAP
